@@ -16,13 +16,11 @@
 //       answer: "ok <st2> | cfg s.. | matrix <0|1> | lookups <queried> <mismatches> | intact <0|1> | move <0|1>"
 #include "arr_access.hpp"
 #include <covfie/core/backend/primitive/array.hpp>
-#include <covfie/core/backend/transformer/affine.hpp>
 #include <covfie/core/backend/transformer/hilbert.hpp>
-#include <covfie/core/backend/transformer/linear.hpp>
 #include <covfie/core/backend/transformer/morton.hpp>
-#include <covfie/core/backend/transformer/nearest_neighbour.hpp>
 #include <covfie/core/backend/transformer/strided.hpp>
 #include <covfie/core/field.hpp>
+#include <cmath>
 #include <cstring>
 #include <iostream>
 #include <sstream>
@@ -44,6 +42,11 @@ using u64 = std::uint64_t;
 #endif
 #ifndef CV_STACK
 #define CV_STACK 0
+#endif
+#if CV_STACK   // (clang 14 does not parse linear.hpp: the variants built with it leave the interpolation layers out)
+#include <covfie/core/backend/transformer/affine.hpp>
+#include <covfie/core/backend/transformer/linear.hpp>
+#include <covfie/core/backend/transformer/nearest_neighbour.hpp>
 #endif
 constexpr std::size_t N = CV_N;
 constexpr std::size_t M = CV_M;
